@@ -210,8 +210,24 @@ def rule_random(fx, rep):
         I = exp.Interp(fx, 'add', extra_transfer=tr)
         try:
             res = I.run(sbc, [('byref', Lin.atom('P'))])
-            v = res[0][1] if len(res) == 1 else None
-            rep.check(isinstance(v, Lin) and v.t == {'P': h}, 'EXP', '%s:scale_by_cofactor' % G, 'multiplies by the full cofactor h (h*r = curve order)',
+            import tt as TT
+            kzP = ('is_zero', TT.lin_key(Lin.atom('P')))
+            okm, v, n_general = True, None, 0
+            for pth_, v, _o in res:
+                if isinstance(v, tuple) and v and v[0] == 'diverges':
+                    okm = False
+                    break
+                lits = TT.path_literals(pth_)
+                if [l for l in lits if l[0] != kzP] or not isinstance(v, Lin) or not v.atoms() <= {'P'}:
+                    okm = False
+                    break
+                if any(l[1] for l in lits):
+                    continue            # identity-only path: every multiple of O is O
+                n_general += 1
+                if v.t != {'P': h}:
+                    okm = False
+                    break
+            rep.check(okm and n_general >= 1, 'EXP', '%s:scale_by_cofactor' % G, 'multiplies by the full cofactor h (h*r = curve order); identity-only paths may return the identity directly',
                       'multiplies by %r, cofactor is %#x' % (v, h), fx.fn(sbc)['span'], construct=sbc)
         except (exp.NotDerivable, exp.Budget) as e:
             rep.fail('EXP', '%s:scale_by_cofactor' % G, 'not derivable: %s' % e, fx.fn(sbc)['span'])
